@@ -261,20 +261,36 @@ Proof.
 Qed.
 
 (* ---- connect_interface -------------------------------------------------------------------------------- *)
-Theorem api_connect fl sub s i st st' r :
+(* the shape of the result: the unit add_peering on a normal return; the graph before the call on a failure, except
+   -- without the rollback -- for the late failures *)
+Ltac peels H :=
+  apply bind_reads in H; [| solve [auto 8 with reads]];
+  let s1 := fresh "s" in let a := fresh "a" in let Hm := fresh "Hm" in let Hg := fresh "Hg" in
+  let e := fresh "e" in let Hr := fresh "Hr" in
+  destruct H as [[s1 [a [Hm [Hg H]]]] | [e [Hr Hg]]]; [| right; exists e; split; [exact Hr | left; exact Hg]];
+  first [ apply getg_val in Hm; destruct Hm as [-> ->]; clear Hg
+        | apply guard_ok_val' in Hm; destruct Hm as [-> Hm]; clear Hg
+        | apply check_node_unique_val in Hm; destruct Hm as [-> Hm]; clear Hg
+        | apply cps_of_ns_or_link_val in Hm; destruct Hm as [-> ->]; clear Hg
+        | apply type_is_val in Hm; destruct Hm as [-> ->]; clear Hg
+        | rewrite <- Hg in *; clear Hg ].
+
+Lemma api_connect_shape fl sub s i st st' r :
   WF (sg st) -> fl_connect_names fl = true ->
   cls_is (sg st) s KNS = true -> cls_is (sg st) i KCP = true -> typ_is (sg st) i sServicePort = false ->
-  connect_interface fl sub s i st = (st', r) -> WF (sg st') \/ (fl_connect_undo fl = false /\ late r).
+  connect_interface fl sub s i st = (st', r) ->
+  (r = Ok tt /\ exists sp l, peering_ok (sg st) s i sp l = true /\ sg st' = add_peering (sg st) s i sp l) \/
+  (exists e, r = Err e /\ (sg st' = sg st \/ (fl_connect_undo fl = false /\ late r))).
 Proof.
   intros W FL Cs Ci Ti H. unfold connect_interface in H. rewrite FL in H.
-  peell H W. peell H W. peell H W. peell H W. peell H W. peell H W.
+  peels H. peels H. peels H. peels H. peels H. peels H.
   match type of H with (match ?o with _ => _ end) _ = _ => destruct o as [parent|] end;
-    [| apply raise_inv in H as [-> _]; left; exact W].
-  peell H W. peell H W.
+    [| apply raise_inv in H as [-> ->]; right; eexists; split; [reflexivity | left; reflexivity]].
+  peels H. peels H.
   match type of W with WF (sg ?sc) => rename sc into scur end.
   match type of H with context [hname parent ++ dash ++ ?nm] => set (pname := hname parent ++ dash ++ nm) in * end.
   apply bind_reads in H; [| solve [auto 10 with reads]].
-  destruct H as [[sA [[] [HmN [HgN H]]]] | [e [Hr HgN]]]; [| left; rewrite HgN; exact W].
+  destruct H as [[sA [[] [HmN [HgN H]]]] | [e [Hr HgN]]]; [| right; exists e; split; [exact Hr | left; exact HgN]].
   (* the name checks *)
   assert (Names : sibling_free (sg scur) s Connects KCP (Some pname) = true /\
                   name_free (sg scur) KLink (Some (pname ++ S "-link")) = true).
@@ -287,8 +303,8 @@ Proof.
   destruct Names as [SF NF]. rewrite <- HgN in *. clear HgN HmN.
   pose proof (wf_ids _ W) as ND.
   apply bind_inv in H as [[sB [pid [H1 H]]]|[e [H1 Hr]]].
-  2:{ left. apply new_sp_run in H1; [| exact ND | eapply cls_is_has_id; eauto].
-      destruct H1 as [[id [X _]]|[e' [_ Hq]]]; [discriminate | rewrite Hq; exact W]. }
+  2:{ right. exists e. split; [exact Hr|]. left. apply new_sp_run in H1; [| exact ND | eapply cls_is_has_id; eauto].
+      destruct H1 as [[id [X _]]|[e' [_ Hq]]]; [discriminate | exact Hq]. }
   apply new_sp_run in H1; [| exact ND | eapply cls_is_has_id; eauto].
   destruct H1 as [[id [X [Hsub [Hf Hq]]]]|[e' [X _]]]; [|discriminate]. inversion X; subst id. clear X.
   set (sp := mk pid KCP (Some sServicePort) pname false) in *.
@@ -301,13 +317,13 @@ Proof.
   { rewrite Hq, has_id_add_owned. simpl. rewrite str_eqb_refl. apply orb_true_r. }
   (* the link on [i; pid] from a state whose graph is that of sB *)
   assert (Made : forall sC sD lid (shared : bool), sg sC = sg sB ->
-            new_link sub (pname ++ S "-link") None (if shared then sL2Path else sPatch) [i; pid] sC = (sD, Ok lid) -> WF (sg sD)).
+            new_link sub (pname ++ S "-link") None (if shared then sL2Path else sPatch) [i; pid] sC = (sD, Ok lid) ->
+            exists l, peering_ok (sg sA) s i sp l = true /\ sg sD = add_peering (sg sA) s i sp l).
   { intros sC sD lid shared Hg3 H1.
     apply new_link_pair_run in H1; [| rewrite Hg3; exact ND2 | rewrite Hg3; exact Hi2 | rewrite Hg3; exact Hp2].
     destruct H1 as [[id [X [Hfl Hq4]]]|[_ [[X|[X|X]]|[X _]]]]; try discriminate X. inversion X; subst id. clear X.
-    rewrite Hq4, Hg3, Hq.
-    set (l := mk lid KLink (Some (if shared then sL2Path else sPatch)) (pname ++ S "-link") false).
-    change (WF (add_peering (sg sA) s i sp l)). apply WF_add_peering; [exact W|].
+    exists (mk lid KLink (Some (if shared then sL2Path else sPatch)) (pname ++ S "-link") false).
+    split; [|rewrite Hq4, Hg3, Hq; reflexivity].
     rewrite Hg3, Hq, has_id_add_owned in Hfl. apply orb_false_iff in Hfl as [Hfl Hne].
     change (nid sp) with pid in Hne. unfold peering_ok, fresh.
     repeat (apply andb_true_iff; split); try reflexivity; try assumption;
@@ -327,17 +343,29 @@ Proof.
   - (* with the rollback *)
     unfold try_any in H.
     match type of H with (match ?m with _ => _ end) = _ => destruct m as [sD [v|e2]] eqn:E2 end.
-    + inversion H; subst sD r. left.
+    + inversion H; subst sD r. left. destruct v. split; [reflexivity|].
       apply bind_inv in E2 as [[sE [lid [H1 H2]]]|[e [_ Hr]]]; [|discriminate]. apply ret_inv in H2 as [-> _].
-      eapply Made; eauto.
-    + left. assert (Hd : sg sD = sg sB).
+      exists sp. eapply Made; eauto.
+    + right. assert (Hd : sg sD = sg sB).
       { apply bind_inv in E2 as [[sE [lid [H1 H2]]]|[e [H1 Hr]]]; [apply ret_inv in H2 as [_ H2]; discriminate|].
         inversion Hr; subst e. exact (proj1 (Failed _ _ _ _ Hg3 H1)). }
       rewrite Hq in Hd.
       assert (W0 : WFr no_exempt (fun _ => true) (sg sA)) by (apply pt_W0; exact W).
       assert (OK1 : owned_okR (sg sA) sp s Connects = true) by (apply sp_owned_ok; assumption).
-      rewrite (proj1 (undo_owned_port _ _ sp s sD e2 st' r W0 OK1 eq_refl Cs Hd H)). exact W.
+      destruct (undo_owned_port _ _ sp s sD e2 st' r W0 OK1 eq_refl Cs Hd H) as [U1 U2].
+      exists e2. split; [exact U2 | left; exact U1].
   - apply bind_inv in H as [[sD [lid [H1 H]]]|[e [H1 Hr]]].
-    + apply ret_inv in H as [-> _]. left. eapply Made; eauto.
-    + right. split; [reflexivity|]. rewrite Hr. exact (proj2 (Failed _ _ _ _ Hg3 H1)).
+    + apply ret_inv in H as [-> ->]. left. split; [reflexivity|]. exists sp. eapply Made; eauto.
+    + right. exists e. split; [exact Hr|]. right. split; [reflexivity|]. rewrite Hr. exact (proj2 (Failed _ _ _ _ Hg3 H1)).
+Qed.
+
+Theorem api_connect fl sub s i st st' r :
+  WF (sg st) -> fl_connect_names fl = true ->
+  cls_is (sg st) s KNS = true -> cls_is (sg st) i KCP = true -> typ_is (sg st) i sServicePort = false ->
+  connect_interface fl sub s i st = (st', r) -> WF (sg st') \/ (fl_connect_undo fl = false /\ late r).
+Proof.
+  intros W FL Cs Ci Ti H. destruct (api_connect_shape fl sub s i st st' r W FL Cs Ci Ti H) as [[_ [sp [l [OK G]]]]|[e [_ [G|X]]]].
+  - left. rewrite G. apply WF_add_peering; assumption.
+  - left. rewrite G. exact W.
+  - right. exact X.
 Qed.
